@@ -213,6 +213,31 @@ func cases(which int) kase {
 		v := &unionU64{Int: &u}
 		return kase{name: "unionU64", typ: "UnionK", ptr: v, want: mkMap([]string{"Int"}, uintVal(u)),
 			eq: func(g interface{}) bool { o := g.(*unionU64); return o.Int != nil && o.String == nil && *o.Int == u }}
+	case 11: // stringprefix unions held by value as typed-map values
+		mk := func(tag string) (schemas.UnionSP, *refval.V) {
+			s := nd.String(tag, 1)
+			nd.Assume(s[0] != ':')
+			if nd.Choose(tag+"member", 2) == 0 {
+				return schemas.UnionSP{Foo: &s}, mkMap([]string{"Foo"}, refval.MkString(s))
+			}
+			return schemas.UnionSP{Bar: &s}, mkMap([]string{"Bar"}, refval.MkString(s))
+		}
+		ua, wa := mk("ua")
+		ub, wb := mk("ub")
+		v := &schemas.MapSU{Keys: []string{"a", "b"}, Values: map[string]schemas.UnionSP{"a": ua, "b": ub}}
+		same := func(x, y schemas.UnionSP) bool {
+			if (x.Foo == nil) != (y.Foo == nil) || (x.Bar == nil) != (y.Bar == nil) {
+				return false
+			}
+			if x.Foo != nil {
+				return *x.Foo == *y.Foo
+			}
+			return x.Bar != nil && *x.Bar == *y.Bar
+		}
+		return kase{name: "MapSU", ptr: v, want: mkMap([]string{"a", "b"}, wa, wb), eq: func(g interface{}) bool {
+			o := g.(*schemas.MapSU)
+			return len(o.Keys) == 2 && len(o.Values) == 2 && nd.And(same(o.Values["a"], ua), same(o.Values["b"], ub))
+		}}
 	}
 	panic("no such case")
 }
@@ -235,7 +260,7 @@ func uintVal(u uint64) *refval.V {
 	return refval.MkUint(u)
 }
 
-const nCases = 11
+const nCases = 12
 
 var ts *schema.TypeSystem
 
@@ -264,6 +289,8 @@ func fresh(name string) interface{} {
 		return &schemas.Nested{}
 	case "Swap":
 		return &schemas.Swap{}
+	case "MapSU":
+		return &schemas.MapSU{}
 	case "mapU64":
 		return &mapU64{}
 	case "unionU64":
@@ -311,7 +338,7 @@ func HWrap() {
 		nd.NoPanic("Unmarshal", func() { _, err = ipld.Unmarshal(enc, dagcbor.Decode, out, typ) })
 		nd.Assert(err == nil, "Unmarshal of the marshalled bytes succeeds")
 		if err == nil {
-			if k.name == "mapU64" {
+			if k.name == "mapU64" || k.name == "MapSU" {
 				nd.Assert(k.eq(out), "Unmarshal(Marshal(v)) holds the same data as v")
 			} else if k.name == "MapSI" {
 				// a key-sorting codec canonicalises the key order of ordered-map structs
@@ -321,8 +348,19 @@ func HWrap() {
 			}
 		}
 	}
-	var b2 bytes.Buffer
-	_ = b2
+	// results stay valid: the bytes of an earlier Marshal are still that value after a later one
+	var e1, e2 []byte
+	var err1, err2 error
+	nd.NoPanic("Marshal twice", func() {
+		e1, err1 = ipld.Marshal(dagcbor.Encode, k.ptr, typ)
+		e2, err2 = ipld.Marshal(dagcbor.Encode, &schemas.Plain{A: 1234567, B: "other value", C: true}, typeOf("Plain"))
+	})
+	if err1 == nil && err2 == nil && k.name != "MapSI" && k.name != "mapU64" {
+		out := fresh(k.name)
+		nd.NoPanic("Unmarshal of the earlier result", func() { _, err = ipld.Unmarshal(e1, dagcbor.Decode, out, typ) })
+		nd.Assert(err == nil && k.eq(out), "the bytes an earlier Marshal returned still hold that value after a later Marshal")
+		_ = e2
+	}
 	nd.Reach("end")
 }
 
